@@ -25,7 +25,6 @@ package text
 // it cannot survive the Do operator
 //@ func (*Extractor) invokeXObject results (err)
 //@   property C02, C08
-//@   flags nosafety
 //@   callsite Transform(m) requires form_matrix_inside_the_saved_state: len(e.gs.stack) == old(len(e.gs.stack)) + 1
 //@   decreases e.maxXObjectDepth - e.xobjectDepth, 0
 //@   ensures depth_restored: e.xobjectDepth == old(e.xobjectDepth) && e.maxXObjectDepth == old(e.maxXObjectDepth)
@@ -49,7 +48,6 @@ package text
 // assigns to it, with its operands in operand order; ' and " move to the next line BEFORE showing their string.
 //@ func (*Extractor) processOperation results (err)
 //@   property C02, C08
-//@   flags nosafety
 //@   decreases e.maxXObjectDepth - e.xobjectDepth, 1
 //@   ensures invocation_budget: e.xobjectInvoked >= old(e.xobjectInvoked) && (old(e.xobjectInvoked) <= maxXObjectInvocations ==> e.xobjectInvoked <= maxXObjectInvocations)
 //@   count nl: NextLine() when true
@@ -72,7 +70,6 @@ package text
 // Tj: exactly one fragment, at the current text position; afterwards only the text matrix has moved.
 //@ func (*Extractor) showText
 //@   property C08
-//@   flags nosafety
 //@   ensures one_fragment_at_the_current_position: len(e.fragments) == old(len(e.fragments)) + 1 && (forall k int :: {e.fragments[k]} 0 <= k && k < old(len(e.fragments)) ==> e.fragments[k] == old(e.fragments)[k])
 //@   ensures line_matrix_and_ctm_untouched: e.gs.Text.TextLineMatrix == old(e.gs.Text.TextLineMatrix) && e.gs.CTM == old(e.gs.CTM) && e.gs.Text.Leading == old(e.gs.Text.Leading)
 // the reported size combines the font size, the text matrix (effective size) and the VERTICAL scale of the CTM: the
@@ -84,7 +81,6 @@ package text
 // TJ: strings are shown in array order; numeric adjustments move the text matrix only
 //@ func (*Extractor) showTextArray
 //@   property C08
-//@   flags nosafety
 //@   ensures line_matrix_and_ctm_untouched: e.gs.Text.TextLineMatrix == old(e.gs.Text.TextLineMatrix) && e.gs.CTM == old(e.gs.CTM) && e.gs.Text.Leading == old(e.gs.Text.Leading)
 //@   loop 0:
 //@     invariant e.gs.Text.TextLineMatrix == old(e.gs.Text.TextLineMatrix) && e.gs.CTM == old(e.gs.CTM) && e.gs.Text.Leading == old(e.gs.Text.Leading)
@@ -100,7 +96,6 @@ package text
 // coordinates) has been kept before; kept fragments stay in order ----
 //@ func (*Extractor) deduplicateFragments results (res)
 //@   property C09
-//@   flags nosafety
 //@   loop 0:
 //@     exhaustive
 //@     step identified_by_rounded_position_and_text: key.x == int(frag.X + 0.5) && key.y == int(frag.Y + 0.5) && key.text == frag.Text
